@@ -12,10 +12,18 @@ fn cut_bytes<W: Write>(data: &[u8], opt: &Opt, stdout: &mut W) -> Result<()> {
 
     opt.bounds.iter().try_for_each(|bof| -> Result<()> {
         let output = match bof {
-            BoundOrFiller::Bound(b) => {
-                let r = b.try_into_range(data.len())?;
-                &data[r.start..r.end]
-            }
+            BoundOrFiller::Bound(b) => match b.try_into_range(data.len()) {
+                Ok(r) => &data[r.start..r.end],
+                Err(e) => {
+                    if let Some(fallback) = &b.fallback_oob {
+                        fallback
+                    } else if let Some(generic_fallback) = &opt.fallback_oob {
+                        generic_fallback
+                    } else {
+                        return Err(e);
+                    }
+                }
+            },
             BoundOrFiller::Filler(f) => f,
         };
 
